@@ -212,14 +212,29 @@ def corpus_check(case, ctx):
     return res
 
 
+def input_check(case, ctx):
+    """Replay of an explicit program {src, t, sig}: used for recorded findings and regression inputs."""
+    res = Result()
+    c = dict(case)
+    c["always_ref"] = True
+    c.setdefault("profile", "input")
+    judge(ctx, c, res)
+    if res.fail is not None and case.get("sig"):
+        res.fail["sig"] = case["sig"]
+    res.keys.append(sha(case["src"]))
+    res.sample = {"input": case["src"][-300:]}
+    return res
+
+
 def sources(ctx):
     srcs = [
+        Source("input", input_check, enum=lambda ctx: iter(())),
         Source("corpus", corpus_check, enum=corpus_enum),
-        Source("exprs", prog_check, strategy=exprs_strategy, examples={"quick": 3000, "thorough": 40000}),
+        Source("exprs", prog_check, strategy=exprs_strategy, examples={"quick": 2000, "thorough": 40000}),
     ]
     try:
         from ..gen import proggen
-        srcs.append(Source("structured", prog_check, strategy=lambda c: proggen.strategy(c), examples={"quick": 350, "thorough": 8000}))
+        srcs.append(Source("structured", prog_check, strategy=lambda c: proggen.strategy(c), examples={"quick": 500, "thorough": 20000}))
     except ImportError:
         pass
     return srcs
